@@ -11,8 +11,8 @@ use std::cell::Cell;
 pub struct VerifAlloc;
 
 thread_local! {
-    static CUR: Cell<usize> = const { Cell::new(0) };
-    static PEAK: Cell<usize> = const { Cell::new(0) };
+    static CUR: Cell<isize> = const { Cell::new(0) };
+    static PEAK: Cell<isize> = const { Cell::new(0) };
     static TOTAL: Cell<usize> = const { Cell::new(0) };
     static BIGGEST: Cell<usize> = const { Cell::new(0) };
     /// poison byte for non-zeroed allocations; 0 = off
@@ -25,10 +25,10 @@ thread_local! {
 #[inline]
 fn on_alloc(size: usize) {
     let _ = CUR.try_with(|c| {
-        let v = c.get().wrapping_add(size);
+        let v = c.get().wrapping_add(size as isize);
         c.set(v);
         let _ = PEAK.try_with(|p| {
-            if v > p.get() && v < (usize::MAX >> 1) {
+            if v > p.get() {
                 p.set(v)
             }
         });
@@ -43,7 +43,7 @@ fn on_alloc(size: usize) {
 
 #[inline]
 fn on_free(size: usize) {
-    let _ = CUR.try_with(|c| c.set(c.get().wrapping_sub(size)));
+    let _ = CUR.try_with(|c| c.set(c.get().wrapping_sub(size as isize)));
 }
 
 unsafe impl GlobalAlloc for VerifAlloc {
@@ -101,21 +101,23 @@ unsafe impl GlobalAlloc for VerifAlloc {
     }
 }
 
-/// Start a measurement window on this thread: returns the current level, resets the peak to it.
+/// Start a measurement window on this thread: the level is reset to zero, so that the peak is
+/// the largest net amount allocated since this call (memory allocated earlier and freed inside
+/// the window can only lower it). Returns the base to pass to `peak_since`.
 pub fn begin() -> usize {
-    let cur = CUR.with(|c| c.get());
-    PEAK.with(|p| p.set(cur));
+    CUR.with(|c| c.set(0));
+    PEAK.with(|p| p.set(0));
     BIGGEST.with(|b| b.set(0));
-    cur
+    0
 }
 
 /// Peak bytes above `base` since `begin()`.
 pub fn peak_since(base: usize) -> usize {
-    PEAK.with(|p| p.get()).saturating_sub(base)
+    (PEAK.with(|p| p.get()).max(0) as usize).saturating_sub(base)
 }
 
 pub fn current() -> usize {
-    CUR.with(|c| c.get())
+    CUR.with(|c| c.get()).max(0) as usize
 }
 
 pub fn biggest_request() -> usize {
